@@ -14,16 +14,16 @@ CHECKS = {
          "Conflict-free and removal-prefixed response sets (every ordered pair of different resource kinds on four paths, bare args removal, systematic removal patterns, random, incl. fully pre-populated update requests) must succeed on the real adaptation; any error is a violation.",
          "Trusts the reference ledger; sampling of inputs, not enumeration."),
  "C03": (EX, "DESIGN.md §3 C03", "runtime monitoring: differential execution of the project's generator on the combined vs the sequential adjustments, plus owner's-value oracle",
-         "For every successful creation the combined adjustment returned by the real adaptation is applied with the project's generator and compared with applying each plugin's adjustment in turn; resource fields the generator does not carry are compared with the model owner's values.",
+         "For every successful creation the combined adjustment returned by the real adaptation is applied with the project's generator and compared with applying each plugin's adjustment in turn; resource fields the generator does not carry are compared with the model owner's values, and the generator-applied combined adjustment with the reference model's final container (env, annotations, mounts, devices).",
          "Canonicalisation (env/annotations as maps, mounts/devices keyed, hooks/rlimits/CDI in order) is assumed not to hide a real difference; harness resolvers stand in for CDI/blockio/RDT."),
  "C04": (EX, "DESIGN.md §3 C04", "runtime monitoring: handler-argument log of every plugin vs reference model; sentinel plugin vs generator-applied reply",
-         "Every plugin's handler arguments (container on create, resources on update) are compared with the reference model after the earlier plugins; a no-op last plugin's view is compared with what the runtime obtains from the combined reply.",
+         "Every plugin's handler arguments (container on create, resources on update) are compared with the reference model after the earlier plugins; a no-op last plugin's view is compared with what the runtime obtains from the combined reply; update requests carry device cgroup rules that every plugin must see.",
          "Trusts the reference apply-adjustment model; nil vs empty collections are treated as equal."),
  "C05": (EX, "DESIGN.md §3 C05", "runtime monitoring: response Update lists vs reference per-target field model",
          "Update lists of create/update/stop responses from the real adaptation are checked for one entry per target with exactly the owners' fields, own entry last, self-update failing, dropped ignore-failure updates (scalar, map and list fields) leaking nothing; for cases whose outcome is open (a plugin naming one item twice) only one-entry-per-target and no repeated page size are asserted.",
          "Flag value of a combined entry and blank entries for targets whose only updates were dropped are not asserted (unstated)."),
  "C06": (EX, "DESIGN.md §3 C06", "runtime monitoring: unique-id handler-invocation log and call/return log of a real Adaptation with stub plugins, offline exactly-once/order checkers, porcupine sequencer model, race detector, CPU-affinity sweeps",
-         "Plugins with enumerated/sampled subscription masks (all 8192 in the thorough tier), tied and distinct indices, registering before and during traffic, receive random sequences of the thirteen lifecycle calls from 1/4/16 concurrent callers, with and (in a separate scenario with 60 registrations) without sync blocks, and after an idle period longer than the request timeout; the logs are checked for exactly-once delivery to subscribed active plugins, index order, one common order, real-time order and own results.",
+         "Plugins with enumerated/sampled subscription masks (all 8192 in the thorough tier), tied and distinct indices, registering before and during traffic, receive random sequences of the thirteen lifecycle calls from 1/4/16 concurrent callers, with and (in a separate scenario with 60 registrations) without sync blocks, after an idle period longer than the request timeout, and after callers cancelled their own requests; the logs are checked for exactly-once delivery to subscribed active plugins, index order, one common order, real-time order and own results.",
          "Activity of a plugin for a request is decided from the sync-block ticket vs the plugin's Synchronize tick; equal-index order is not asserted."),
  "C07": (FE, "DESIGN.md §3 C07", "runtime monitoring with fault injection: raw protocol peers behind a harness-owned cut-wrapper inside a real Adaptation, enumerated fault kinds x positions x request types x byte offsets, result/latency/invocation-log oracles, hang rule with goroutine dumps, race detector, CPU-affinity sweeps",
          "Every listed fault (peer close before/on/after, cut after k bytes of request or response, handler hang, malformed frames, unknown connection id, stalled 1 MiB request, flooding peer that stops reading, handler error from raw peers and, for all thirteen request kinds, from stub-based plugins) is injected at first/middle/last position for each request type, alone and in pairs, followed by two healthy requests; the request must complete in time with exactly the survivors' contributions, survivors invoked once, failed plugin dropped; handler errors must veto.",
